@@ -576,10 +576,18 @@ Definition start_if_ready (s : state) (id i : nat) (retry : Z) (st0 : stage) (by
         ok ([claim_commit] ++ sib_commits ++
             [txn [c_put i planned; map OAdd (new_before s i st); c_mark id; c_pushes (first_msgs s i st)]]).
 
+(* a synthetic stage whose parent is NOT_STARTED: the parent was re-armed by a jump after this StartStage was queued *)
+Definition parent_not_started (s : state) (st : stage) : bool :=
+  match y_parent (s_syn st) with
+  | Some p => match get_stage s p with Some ps => status_eqb (s_status ps) NOT_STARTED | None => false end
+  | None => false
+  end.
+
 Definition handle_start_stage (s : state) (id i : nat) (retry : Z) : hres :=
   match get_stage s i with
   | None => ok []
   | Some st =>
+      if parent_not_started s st then ok [c_mark id] else
       let ups := upstream s st in
       let bypass := s_bypass st in
       let r := evaluate_readiness (rstage_of st) ups bypass in
